@@ -93,6 +93,11 @@ class YajilinClue(Combinator):
         DIR_MAP = {"^": 1, "v": 2, "<": 3, ">": 4}
         dir = DIR_MAP[value[0]]
         n = int(value[1:])
+        if n >= 256:
+            return None
+        if n >= 16:
+            # pzpr writes two-digit numbers as (direction + 5) followed by two hex digits
+            return 1, f"{dir + 5}{n:02x}"
         return 1, f"{dir}{hex(n)[2:]}"
 
     def deserialize(self, env, data, idx):
@@ -101,9 +106,15 @@ class YajilinClue(Combinator):
         dir = data[idx]
         if dir == "0":
             return 2, ["??"]
+        DIR_MAP = {1: "^", 2: "v", 3: "<", 4: ">"}
+        if dir in ("6", "7", "8", "9"):
+            if idx + 2 >= len(data):
+                return None
+            if not all(c in "0123456789abcdef" for c in data[idx + 1 : idx + 3]):
+                return None
+            return 3, [f"{DIR_MAP[int(dir) - 5]}{int(data[idx + 1 : idx + 3], 16)}"]
         if dir not in "1234":
             return None
-        DIR_MAP = {1: "^", 2: "v", 3: "<", 4: ">"}
         n = data[idx + 1]
         if n == ".":
             return 2, ["??"]
